@@ -217,14 +217,14 @@ Qed.
 
 (* the five entry points of the socket interface and the driver hook *)
 Theorem send_io_inside_engine : forall k size T, bracketed (tls_send k size T).
-Proof. intros. unfold tls_send. apply br_bind; [apply br_upd_tls|]. intros _. apply br_tls_write. Qed.
+Proof. intros. unfold tls_send. apply br_bind; [apply br_of_waits, waits_set_timeout|]. intros _. apply br_tls_write. Qed.
 
 Theorem send_some_io_inside_engine : forall k size, bracketed (tls_send_some k size).
 Proof. intros. unfold tls_send_some. apply br_bind; [apply br_upd_tls|]. intros _. apply br_tls_write. Qed.
 
 Theorem receive_io_inside_engine : forall k size T, bracketed (tls_receive k size T).
 Proof.
-  intros. unfold tls_receive. apply br_bind; [apply br_upd_tls|]. intros _.
+  intros. unfold tls_receive. apply br_bind; [apply br_of_waits, waits_set_timeout|]. intros _.
   apply br_bind; [apply br_tls_read|]. intros n.
   destruct (0 <? n); [apply br_ret|]. destruct (T <? 0); [apply br_stuck|apply br_ret].
 Qed.
@@ -258,6 +258,7 @@ Qed.
 Theorem shutdown_io_inside_engine : forall k, bracketed (tls_shutdown k).
 Proof.
   intros. unfold tls_shutdown. apply br_bind; [apply br_upd_tls|]. intros _.
+  apply br_bind; [apply br_of_waits, waits_set_timeout|]. intros _.
   apply br_bind; [apply br_engine|]. intros r.
   destruct (fst r <=? 0); [|apply br_ret].
   apply br_bind; [apply br_shutdown_loop|]. intros _.
